@@ -1,6 +1,7 @@
 mod common;
 mod fixture;
 mod queries;
+mod race;
 mod hops;
 mod provx;
 mod sched;
